@@ -25,9 +25,19 @@ pub struct DimSpec {
     pub script: Vec<usize>,
 }
 
+#[derive(Clone, Debug, PartialEq)]
+pub enum Variant {
+    Plain,
+    /// the master key is replaced by its deserialised serialisation before any key is made
+    RoundTrip,
+    /// an extra attribute is inserted at this rank of this dimension, then deleted, before the update
+    DeletedExtra { dim: usize, rank: usize },
+}
+
 #[derive(Clone, Debug)]
 pub struct StructSpec {
     pub dims: Vec<DimSpec>,
+    pub variant: Variant,
 }
 
 impl StructSpec {
@@ -40,6 +50,11 @@ impl StructSpec {
             })
             .collect::<Vec<_>>()
             .join(" ")
+            + &match &self.variant {
+                Variant::Plain => String::new(),
+                Variant::RoundTrip => " [master key round-tripped]".to_string(),
+                Variant::DeletedExtra { dim, rank } => format!(" [extra attribute inserted at rank {rank} of {} then deleted]", self.dims[*dim].name),
+            }
     }
     pub fn omega(&self) -> usize {
         self.dims.iter().map(|d| d.attrs.len() + 1).product()
@@ -156,7 +171,25 @@ pub fn enumerate_structures(thorough: bool) -> Vec<StructSpec> {
                         d
                     })
                     .collect();
-                out.push(StructSpec { dims });
+                let dims: Vec<DimSpec> = dims;
+                out.push(StructSpec { dims: dims.clone(), variant: Variant::Plain });
+                // variants (on the first hint assignment only): serialisation round-trip of the
+                // master key when some rank order differs from the insertion order, and an extra
+                // attribute inserted at every rank of every dimension and deleted again
+                if hi == 0 {
+                    let reordered = dims.iter().any(|d| d.script.iter().enumerate().any(|(i, j)| i != *j));
+                    if reordered || si == 0 {
+                        out.push(StructSpec { dims: dims.clone(), variant: Variant::RoundTrip });
+                    }
+                    if si == 0 {
+                        for (di, d) in dims.iter().enumerate() {
+                            let ranks: Vec<usize> = if d.ordered { (0..=d.attrs.len()).collect() } else { vec![0] };
+                            for rank in ranks {
+                                out.push(StructSpec { dims: dims.clone(), variant: Variant::DeletedExtra { dim: di, rank } });
+                            }
+                        }
+                    }
+                }
             }
         }
     }
@@ -267,7 +300,18 @@ pub fn build(spec: &StructSpec) -> Result<Built, String> {
             inserted.push(ai);
         }
     }
-    let mpk = cc.update_msk(&mut msk).map_err(|e| e.to_string())?;
+    if let Variant::DeletedExtra { dim, rank } = &spec.variant {
+        let d = &spec.dims[*dim];
+        let after = if *rank == 0 { None } else { Some(d.attrs[*rank - 1].clone()) };
+        msk.access_structure.add_attribute(QualifiedAttribute::new(&d.name, "extra"), hint(true), after.as_deref()).map_err(|e| e.to_string())?;
+        msk.access_structure.del_attribute(&QualifiedAttribute::new(&d.name, "extra")).map_err(|e| e.to_string())?;
+    }
+    let mut mpk = cc.update_msk(&mut msk).map_err(|e| e.to_string())?;
+    if spec.variant == Variant::RoundTrip {
+        use cosmian_crypto_core::bytes_ser_de::Serializable;
+        msk = MasterSecretKey::deserialize(&ser(&msk)).map_err(|e| format!("own master key rejected: {e}"))?;
+        mpk = MasterPublicKey::deserialize(&ser(&mpk)).map_err(|e| format!("own public key rejected: {e}"))?;
+    }
     Ok(Built { cc, msk, mpk })
 }
 
@@ -555,7 +599,7 @@ pub fn part(run: &mut Run, thorough: bool, owned: &[&str]) {
     }
     run.set("evaluations", json!(tot.cells));
     run.set("distinct_nontrivial", json!(distinct));
-    run.set("rule", json!("every structure of the bounded family (1-3 dimensions, anarchy/hierarchy, 1-3 attributes, hint assignments, insertion scripts so that rank != insertion order != id order != name order) is built through the public API; every single-conjunction policy and pairs of conjunctions (all pairs when |Omega| <= 16, adjacent and every-7th pairs above; P2 x P2 only when all pairs) are used both as user policy (one real key each) and as encryption policy (one real encapsulation each); the full decaps matrix is evaluated against the name-level cover relation. An evaluation is one decaps cell; distinct_nontrivial counts structures whose matrix contains both outcomes"));
+    run.set("rule", json!("every structure of the bounded family (1-3 dimensions, anarchy/hierarchy, 1-3 attributes, hint assignments, insertion scripts so that rank != insertion order != id order != name order; variants: master and public key replaced by their deserialised serialisation before use; an extra attribute inserted at every rank and deleted again before the update) is built through the public API; every single-conjunction policy and pairs of conjunctions (all pairs when |Omega| <= 16, adjacent and every-7th pairs above; P2 x P2 only when all pairs) are used both as user policy (one real key each) and as encryption policy (one real encapsulation each); the full decaps matrix is evaluated against the name-level cover relation. An evaluation is one decaps cell; distinct_nontrivial counts structures whose matrix contains both outcomes"));
     run.set("structures", json!(specs.len()));
     run.set("cells_opened", json!(tot.opened));
     run.set("cells_refused", json!(tot.refused));
